@@ -346,7 +346,7 @@ def rewrite_twins(text, counts):
     return text
 
 
-def rewrite_forloops(text, contracts, counts):
+def rewrite_forloops(text, contracts, counts, body_lost=None):
     """R13: `for PAT in EXPR { B }`  ->  `{ let mut IT = EXPR'; loop { match IT.next() { Some(PAT) => { B } None => { break; } } } }`
     (Rust's documented desugaring of `for`; EXPR' is EXPR for an expression that already is an iterator, or
     crate::vf::into_iter(EXPR) for a generic `impl IntoIterator` value).  Applied only to the loops a contract names
@@ -363,9 +363,13 @@ def rewrite_forloops(text, contracts, counts):
             if f.key not in names or not f.has_body:
                 continue
             loops = rsscan.find_loops(m0, f.open + 1, f.close)
+            bad_ = [ordn for ordn in names[f.key] if ordn < 1 or ordn > len(loops) or loops[ordn - 1][0] != 'for']
+            if bad_:
+                if body_lost is None:
+                    raise Undecided('fn %s: loop %d is not a `for` loop (forname anchor lost)' % (f.key, bad_[0]))
+                body_lost.append((f.key, 'loop %d is not a `for` loop (forname anchor lost)' % bad_[0]))
+                continue
             for ordn, nm in names[f.key].items():
-                if ordn < 1 or ordn > len(loops) or loops[ordn - 1][0] != 'for':
-                    raise Undecided('fn %s: loop %d is not a `for` loop (forname anchor lost)' % (f.key, ordn))
                 kw, kwi, o, cl = loops[ordn - 1]
                 mi = re.compile(r'\bin\b').search(m0, kwi + 3, o)
                 ed.append((mi.end(), mi.end(), ' %s:' % nm))
@@ -381,9 +385,15 @@ def rewrite_forloops(text, contracts, counts):
         if f.key not in want or not f.has_body:
             continue
         loops = rsscan.find_loops(m, f.open + 1, f.close)
+        if body_lost is not None and any(k_ == f.key for k_, _ in body_lost):
+            continue
+        bad_ = [ordn for ordn in want[f.key] if ordn < 1 or ordn > len(loops) or loops[ordn - 1][0] != 'for']
+        if bad_:
+            if body_lost is None:
+                raise Undecided('fn %s: loop %d is not a `for` loop (R13 anchor lost)' % (f.key, bad_[0]))
+            body_lost.append((f.key, 'loop %d is not a `for` loop (R13 anchor lost)' % bad_[0]))
+            continue
         for ordn, (itname, mode) in want[f.key].items():
-            if ordn < 1 or ordn > len(loops) or loops[ordn - 1][0] != 'for':
-                raise Undecided('fn %s: loop %d is not a `for` loop (R13 anchor lost)' % (f.key, ordn))
             kw, kwi, o, cl = loops[ordn - 1]
             hdr = text[kwi + 3:o]
             mh = m[kwi + 3:o]
@@ -422,7 +432,7 @@ def rewrite_forloops(text, contracts, counts):
     return text
 
 
-def apply_rewrites(lines, counts, extra_rules=(), contracts=None, cfg=None):
+def apply_rewrites(lines, counts, extra_rules=(), contracts=None, cfg=None, body_lost=None):
     text = '\n'.join(l.text for l in lines)
     n0 = text.count('\n')
     text = rewrite_mut_self(text, counts)
@@ -435,7 +445,7 @@ def apply_rewrites(lines, counts, extra_rules=(), contracts=None, cfg=None):
     if cfg is None or cfg.get('batch', True):
         text = rewrite_twins(text, counts)
     text = rewrite_question_mark(text, counts, contracts or {})
-    text = rewrite_forloops(text, contracts or {}, counts)
+    text = rewrite_forloops(text, contracts or {}, counts, body_lost)
     if text.count('\n') != n0:
         raise Undecided('internal: a rewrite changed the line count')
     for l, t in zip(lines, text.split('\n')):
@@ -623,7 +633,7 @@ def load_externals(path, cfg=None):
 
 # ---------------------------------------------------------------------------------- pass S: splice
 
-def splice(lines, contracts, injections, counts, report, externals=(), canary=False):
+def splice(lines, contracts, injections, counts, report, externals=(), canary=False, body_lost=None):
     text = '\n'.join(l.text for l in lines)
     m = rsscan.mask(text)
     fns, mods, traits, impls = rsscan.scan_items(text, m)
@@ -699,6 +709,20 @@ def splice(lines, contracts, injections, counts, report, externals=(), canary=Fa
             ins.append((f.open, 0, '\n' + '\n'.join(clauses) + '\n', tag))
         if c.attrs:
             ins.append((f.hdr_start, 0, '\n'.join(c.attrs) + '\n', tag))
+        # ---- body-level proof text.  If the function's body no longer has the statements/loops the proof text is anchored
+        # on (or R13 could not find its `for` loop), the function is degraded for this run: it keeps its requires/ensures
+        # (callers are still checked against them) but its body is not verified (external_body) and its obligation counts
+        # as missing - the properties that select it become UNDECIDED, all others are unaffected.
+        pre_lost = body_lost is not None and any(k_ == key for k_, _ in body_lost)
+        ins_mark, lost_mark = len(ins), len(lost)
+        if pre_lost:
+            ins.append((f.hdr_start, -1, '#[verifier::external_body]\n', ('gen', 'degraded: proof anchor lost in ' + key)))
+            if f.has_body:
+                # the body is not verified in this run: replace it (line preserving) so that rewrite wrappers that no
+                # longer fit the changed text cannot break the compilation of the rest of the crate
+                reps.append((f.open, f.close + 1, '{ unimplemented!()' + '\n' * text[f.open:f.close + 1].count('\n') + '}'))
+            counts['contracts-spliced'] = counts.get('contracts-spliced', 0) + 1
+            continue
         if c.body_prefix:
             if not f.has_body:
                 lost.append('fn %s: body text but no body' % key)
@@ -811,6 +835,13 @@ def splice(lines, contracts, injections, counts, report, externals=(), canary=Fa
             else:
                 le = text.find('\n', f.open + hits[0].end())
                 ins.append((le + 1, 0, '\n'.join(body) + '\n', tag))
+        if body_lost is not None and len(lost) > lost_mark and f.has_body:
+            why_ = '; '.join(lost[lost_mark:])
+            del lost[lost_mark:]
+            del ins[ins_mark:]
+            body_lost.append((key, why_[:200]))
+            ins.append((f.hdr_start, -1, '#[verifier::external_body]\n', ('gen', 'degraded: proof anchor lost in ' + key)))
+            reps.append((f.open, f.close + 1, '{ unimplemented!()' + '\n' * text[f.open:f.close + 1].count('\n') + '}'))
         counts['contracts-spliced'] = counts.get('contracts-spliced', 0) + 1
     seen_ext = set()
     for kind, key, why in externals:
@@ -833,6 +864,11 @@ def splice(lines, contracts, injections, counts, report, externals=(), canary=Fa
                 continue
             attr = '#[verifier::external]' if kind == 'fn' else '#[verifier::external_body]'
             ins.append((cands[0].hdr_start, -1, attr + '\n', tag))
+            if kind == 'fnbody' and why.startswith('auto:') and cands[0].has_body and not any(r_[0] == cands[0].open for r_ in reps):
+                f_ = cands[0]
+                # drop proof text spliced into the body and replace the body (see above)
+                ins[:] = [x for x in ins if not (f_.open < x[0] <= f_.close)]
+                reps.append((f_.open, f_.close + 1, '{ unimplemented!()' + '\n' * text[f_.open:f_.close + 1].count('\n') + '}'))
         elif kind == 'impl':
             hit = [(k, o, c) for k, o, c in impls if k == key]
             if len(hit) != 1:
@@ -848,7 +884,7 @@ def splice(lines, contracts, injections, counts, report, externals=(), canary=Fa
     if canary:
         # canaries for exec functions that have no contract of their own (e.g. trait impl methods checked against the
         # trait-level contract): the same per-function flag clause
-        ext_keys = set(k_ for kd_, k_, _ in externals if kd_ in ('fn', 'fnbody'))
+        ext_keys = set(k_ for kd_, k_, _ in externals if kd_ in ('fn', 'fnbody')) | set(k_ for k_, _ in (body_lost or []))
         ext_mods = [k_ for kd_, k_, _ in externals if kd_ == 'mod']
         for f in fns:
             if not f.has_body or f.key in contracts or f.key in ext_keys or len(bykey.get(f.key, [])) != 1:
@@ -1039,14 +1075,16 @@ def extract(repo, verif, cfg, extra_external=(), canary=False):
     load_file(src_root, 'lib.rs', [], cfg, counts, lines)
     drop_inline_mod(lines, '_mock', counts)
     contracts, injections = load_contracts(os.path.join(verif, 'contracts', 'verus'), cfg)
-    apply_rewrites(lines, counts, contracts=contracts, cfg=cfg)
+    body_lost = []
+    apply_rewrites(lines, counts, contracts=contracts, cfg=cfg, body_lost=body_lost)
     macro_wrap(lines, counts)
     macro_external(lines, counts)
     ghost_fields(lines, counts)
     externals = load_externals(os.path.join(verif, 'contracts', 'verus', 'externals.txt'), cfg)
     externals = list(externals) + list(extra_external)
     report['externals'] = externals
-    body = splice(lines, contracts, injections, counts, report, externals, canary=canary)
+    body = splice(lines, contracts, injections, counts, report, externals, canary=canary, body_lost=body_lost)
+    report['body_lost'] = list(body_lost)
     prelude = open(os.path.join(verif, 'contracts', 'prelude.rs')).read().split('\n')
     head = ['#![allow(unused_imports, dead_code, unused_variables, unused_mut, unused_assignments, unused_parens, non_snake_case)]',
             'use vstd::prelude::*;', 'verus! {', 'global size_of usize == 8;', '#[allow(unused_imports)] use crate::vf::*;', '#[allow(unused_imports)] use vstd::std_specs::iter::IteratorSpec;', 'broadcast use {crate::dcs::group_dcs_params, crate::vf::group_trace, crate::interface::lemma_enc_all_one};']
